@@ -121,6 +121,86 @@ func runC15(e *Engine, r *Report, tier string) {
 		}
 	}
 
+	// ---------- R10: per-type parameters are looked up under the proposal message's own type URL ----------
+	r.Rule("R10", "the key under which per-message-type parameters are looked up is the TypeUrl of one of the proposal's own (outer) messages — not a URL taken from inside a message", 1, "per-type parameter lookups for a proposal")
+	{
+		n10 := 0
+		for _, fn := range e.Funcs {
+			if isAuxPkg(fnPkgPath(fn)) || !strings.Contains(fnPkgPath(fn), "x/gov/keeper") {
+				continue
+			}
+			// lookups on behalf of a proposal: the function (or its caller chain) has a v1.Proposal at hand
+			hasProposal := false
+			for _, p := range fn.Params {
+				if strings.HasSuffix(namedTypeName(p.Type()), "gov/types/v1.Proposal") {
+					hasProposal = true
+				}
+			}
+			if !hasProposal {
+				continue
+			}
+			allCalls(fn, func(c ssa.CallInstruction) {
+				if callName(c) != "GetCustomParams" {
+					return
+				}
+				args := callArgs(c)
+				if len(args) < 3 {
+					return
+				}
+				n10++
+				ck := e.FnKey(fn) + " custom-params key"
+				bad := ""
+				res := e.Slice(args[2], SliceOpts{MaxDepth: 14, IntoCallees: true, ConstLeafOK: true}, func(v ssa.Value) Verdict {
+					nm, st, ok := fieldName(v)
+					if !ok || nm != "TypeUrl" || !strings.HasSuffix(namedTypeName(st), "codec/types.Any") {
+						return Continue
+					}
+					// where does this Any come from? it must be an element of the proposal's message list
+					fa, _ := v.(*ssa.FieldAddr)
+					var base ssa.Value
+					if fa != nil {
+						base = fa.X
+					} else if f, ok := v.(*ssa.Field); ok {
+						base = f.X
+					}
+					okSrc := false
+					e.Slice(base, SliceOpts{MaxDepth: 10, IntoCallees: false, IntoCallers: true, ConstLeafOK: true}, func(w ssa.Value) Verdict {
+						if cc, ok := w.(*ssa.Call); ok {
+							switch callName(cc) {
+							case "GetMessages":
+								okSrc = true
+								return Accept
+							case "GetContent", "GetCachedValue":
+								bad = "the Any whose TypeUrl is used comes from " + callName(cc) + "(): it is an inner value of a message, not the proposal's message"
+								return Reject
+							}
+						}
+						if n2, st2, ok := fieldName(w); ok && n2 == "Messages" && strings.HasSuffix(namedTypeName(st2), "v1.Proposal") {
+							okSrc = true
+							return Accept
+						}
+						return Continue
+					})
+					if okSrc && bad == "" {
+						return Accept
+					}
+					if bad == "" {
+						bad = "the Any whose TypeUrl is used is not taken from the proposal's message list"
+					}
+					return Reject
+				})
+				okKey := bad == "" && res.AnyAccepted() && len(res.Rejected) == 0
+				if bad == "" && !okKey {
+					bad = "the key does not derive from the TypeUrl of the proposal's messages"
+				}
+				r.Check(okKey, "R10", ck, e.InstrPos(c), "key = TypeUrl of a proposal message", "per-message-type parameters are looked up under a different key than the type URL of the proposal's message: "+bad+" — the voting period / quorum configured for that message type never apply (or those of another type do)")
+			})
+		}
+		if n10 == 0 {
+			r.Fail("R10", "lookups", "", "UNRESOLVED-ANCHOR: no per-type parameter lookup on behalf of a proposal found")
+		}
+	}
+
 	gk := "x/gov/keeper"
 	// ---------- R1 ----------
 	add := e.depositRoutine(gk)
